@@ -2,216 +2,20 @@
 // cfg(all(test, osrg_rustybgp_verif)).  Child module of `crate::gr`, so it reaches the private
 // `RestartingDeferral.state` / `RestartingInner` internals.
 //
-// C11 (restarting speaker): reads case lines (lean/Rbgp/Gr/Restarting/Codec.lean syntax) from
-// $VERIF_IN, drives the REAL `RestartingDeferral` and a REAL `TableManager` (2 shards, one observer
-// peer channel collecting every distributed `NlriChange`), writes one observation line per case to
-// $VERIF_OUT.  The ~20 lines of `process_restarting_outputs` (private to crate::event) and of the
-// start-up block in event/mod.rs are transcribed here (`apply_outs`, `init`); they only route the
-// machine's outputs to `TableManager::{start,end}_deferral_families`.
+// The C11 harness itself lives under crate::event (harness/daemon/c11.rs) so that it can drive the
+// REAL glue (`process_effects`, `process_restarting_outputs`, `gr_selection_deferral_timer_expired`,
+// `PeerSession::run`) on a real `Global`.  `mod verif_gr` is private to crate::gr, so the one thing
+// that needs the private fields — reading `pending` and the state tag of the machine that sits in
+// `Global.selection_deferral` — is exported here by symbol name and imported there with
+// `unsafe extern "Rust"` (test-only code; always compiled, no sub-cfg).
 #![allow(dead_code, unused_imports)]
 
 use super::*;
-use std::net::Ipv4Addr;
-use std::sync::Arc;
 
-#[path = "/verif/harness/common/sexp.rs"]
-mod sexp;
-use sexp::Term;
-
-use crate::event::ToPeerEvent;
-use crate::table_manager::TableManager;
-use rustybgp_packet as packet;
-use rustybgp_table as table;
-
-const MAX_PEER: u64 = 4;
-const MAX_FAM: u64 = 3;
-const MAX_PFX: u64 = 4;
-
-fn fam_of(i: u64) -> Family {
-    match i {
-        0 => Family::IPV4,
-        1 => Family::IPV6,
-        _ => Family::IPV4_MC,
-    }
-}
-fn fam_idx(f: Family) -> u64 {
-    if f == Family::IPV4 {
-        0
-    } else if f == Family::IPV6 {
-        1
-    } else if f == Family::IPV4_MC {
-        2
-    } else {
-        99
-    }
-}
-fn peer_addr(i: u64) -> IpAddr {
-    IpAddr::V4(Ipv4Addr::new(10, 0, 0, 1 + i as u8))
-}
-fn peer_idx(a: IpAddr) -> u64 {
-    match a {
-        IpAddr::V4(v) => (v.octets()[3] as u64).wrapping_sub(1),
-        _ => 99,
-    }
-}
-fn net_of(f: u64, n: u64) -> packet::Nlri {
-    if f == 1 {
-        format!("2001:db8:{}::/48", n + 1).parse().unwrap()
-    } else {
-        format!("10.{}.0.0/16", n + 1).parse().unwrap()
-    }
-}
-fn pfx_idx(net: &packet::Nlri) -> u64 {
-    let s = net.to_string();
-    for n in 0..MAX_PFX {
-        if s == format!("2001:db8:{}::/48", n + 1) || s == format!("10.{}.0.0/16", n + 1) {
-            return n;
-        }
-    }
-    99
-}
-
-fn small(t: &Term, max: u64) -> Option<u64> {
-    let n = t.as_u64()?;
-    if n < max { Some(n) } else { None }
-}
-fn fams_of(t: &Term) -> Option<Vec<u64>> {
-    t.as_list()?.iter().map(|x| small(x, MAX_FAM)).collect()
-}
-
-enum Ev {
-    Est(u64, Vec<u64>),
-    Eor(u64, u64),
-    Wd(u64),
-    Timer,
-    Ins(u64, u64, u64),
-    Rm(u64, u64, u64),
-    Drop(u64, u64),
-}
-
-fn ev_of(t: &Term) -> Option<Ev> {
-    if t.as_atom() == Some("timer") {
-        return Some(Ev::Timer);
-    }
-    let l = t.as_list()?;
-    let h = l.first()?.as_atom()?;
-    match (h, l.len()) {
-        ("est", 3) => Some(Ev::Est(small(&l[1], MAX_PEER)?, fams_of(&l[2])?)),
-        ("eor", 3) => Some(Ev::Eor(small(&l[1], MAX_PEER)?, small(&l[2], MAX_FAM)?)),
-        ("wd", 2) => Some(Ev::Wd(small(&l[1], MAX_PEER)?)),
-        ("ins", 4) => Some(Ev::Ins(
-            small(&l[1], MAX_PEER)?,
-            small(&l[2], MAX_FAM)?,
-            small(&l[3], MAX_PFX)?,
-        )),
-        ("rm", 4) => Some(Ev::Rm(
-            small(&l[1], MAX_PEER)?,
-            small(&l[2], MAX_FAM)?,
-            small(&l[3], MAX_PFX)?,
-        )),
-        ("drop", 3) => Some(Ev::Drop(small(&l[1], MAX_PEER)?, small(&l[2], MAX_FAM)?)),
-        _ => None,
-    }
-}
-
-struct Case {
-    peers: Vec<(u64, Vec<u64>)>,
-    dur: Option<u64>,
-    evs: Vec<Ev>,
-}
-
-fn case_of(t: &Term) -> Option<Case> {
-    let l = t.as_list()?;
-    if l.len() != 4 || l[0].as_atom()? != "case" {
-        return None;
-    }
-    let ps = l[1].tagged("peers")?;
-    let mut peers = Vec::new();
-    for p in ps {
-        let e = p.as_list()?;
-        if e.len() != 2 {
-            return None;
-        }
-        peers.push((small(&e[0], MAX_PEER)?, fams_of(&e[1])?));
-    }
-    let d = l[2].tagged("dur")?;
-    if d.len() != 1 {
-        return None;
-    }
-    let dur = if d[0].as_atom() == Some("none") {
-        None
-    } else {
-        let s = d[0].tagged("some")?;
-        if s.len() != 1 {
-            return None;
-        }
-        // Lean's `asNat?` accepts any decimal; keep the same domain (u64 is ample for generated cases)
-        Some(s[0].as_u64()?)
-    };
-    let evs = l[3].tagged("evs")?.iter().map(ev_of).collect::<Option<Vec<_>>>()?;
-    Some(Case { peers, dur, evs })
-}
-
-// ---- observation printing -------------------------------------------------------------------
-
-fn fams_t(fs: &[Family]) -> Term {
-    let mut v: Vec<u64> = fs.iter().map(|f| fam_idx(*f)).collect();
-    v.sort_unstable();
-    Term::list(v.into_iter().map(Term::nat).collect())
-}
-
-fn outs_t(outs: &[RestartingOutput]) -> Term {
-    // canonical order: defer < complete (by family) < timer < end   (Codec.canonOuts)
-    let mut keyed: Vec<((u64, u64), Term)> = outs
-        .iter()
-        .map(|o| match o {
-            RestartingOutput::DeferFamilies(fs) => ((0, 0), Term::tag("defer", vec![fams_t(fs)])),
-            RestartingOutput::FamilyDeferralComplete(f) => (
-                (1, fam_idx(*f)),
-                Term::tag("complete", vec![Term::nat(fam_idx(*f))]),
-            ),
-            RestartingOutput::StartDeferralTimer(d) => (
-                (2, 0),
-                Term::tag("timer", vec![Term::opt(d.map(|d| Term::nat(d.as_secs())))]),
-            ),
-            RestartingOutput::EndDeferral(fs) => ((3, 0), Term::tag("end", vec![fams_t(fs)])),
-        })
-        .collect();
-    keyed.sort_by_key(|(k, _)| *k);
-    Term::tag("outs", keyed.into_iter().map(|(_, t)| t).collect())
-}
-
-fn drain_changes(rx: &mut tokio::sync::mpsc::UnboundedReceiver<ToPeerEvent>) -> Term {
-    let mut v: Vec<(u64, u64, u64, Vec<u64>)> = Vec::new();
-    while let Ok(ev) = rx.try_recv() {
-        if let ToPeerEvent::NlriChange(c) = ev {
-            let mut peers: Vec<u64> = c
-                .current_paths
-                .iter()
-                .map(|p| peer_idx(p.source.remote_addr))
-                .collect();
-            peers.sort_unstable();
-            let key = peers.iter().fold(0u64, |a, p| a + (1u64 << (*p).min(62)));
-            v.push((fam_idx(c.family), pfx_idx(&c.net), key, peers));
-        }
-    }
-    v.sort();
-    Term::tag(
-        "chg",
-        v.into_iter()
-            .map(|(f, n, _, ps)| {
-                Term::list(vec![
-                    Term::nat(f),
-                    Term::nat(n),
-                    Term::list(ps.into_iter().map(Term::nat).collect()),
-                ])
-            })
-            .collect(),
-    )
-}
-
-fn tag_and_pending(rd: Option<&RestartingDeferral>) -> (Term, Term) {
-    let (tag, pend): (&str, Option<&FnvHashMap<IpAddr, FnvHashSet<Family>>>) = match rd {
+/// (state tag, pending as (peer address, families)) of a machine; `None` = no machine installed.
+#[unsafe(no_mangle)]
+pub fn verif_c11_rd_dump(rd: Option<&RestartingDeferral>) -> (&'static str, Vec<(IpAddr, Vec<Family>)>) {
+    let (tag, pend): (&'static str, Option<&FnvHashMap<IpAddr, FnvHashSet<Family>>>) = match rd {
         None => ("absent", None),
         Some(m) => match &m.state {
             RestartingInner::AwaitingStart { pending, .. } => ("awaiting", Some(pending)),
@@ -219,244 +23,13 @@ fn tag_and_pending(rd: Option<&RestartingDeferral>) -> (Term, Term) {
             RestartingInner::Completed => ("completed", None),
         },
     };
-    let mut v: Vec<(u64, Vec<u64>)> = pend
-        .map(|p| {
-            p.iter()
-                .map(|(a, fs)| {
-                    let mut f: Vec<u64> = fs.iter().map(|f| fam_idx(*f)).collect();
-                    f.sort_unstable();
-                    (peer_idx(*a), f)
-                })
-                .collect()
-        })
+    let v = pend
+        .map(|p| p.iter().map(|(a, fs)| (*a, fs.iter().copied().collect())).collect())
         .unwrap_or_default();
-    v.sort();
-    (
-        Term::atom(tag),
-        Term::tag(
-            "pend",
-            v.into_iter()
-                .map(|(p, fs)| {
-                    Term::list(vec![
-                        Term::nat(p),
-                        Term::list(fs.into_iter().map(Term::nat).collect()),
-                    ])
-                })
-                .collect(),
-        ),
-    )
-}
-
-/// `Rib.deferring` has no accessor outside the table crate: probe it.  A fresh unfiltered path
-/// inserted straight into a shard's `Table` yields `NoChange` iff the family is deferring there;
-/// the probe path is removed again at once (nothing is distributed: the shard's `rtable` is used
-/// directly, not `insert_route`).
-fn flags_t(tables: &TableManager, probe: &Arc<table::Source>) -> Term {
-    let mut v = Vec::new();
-    for f in 0..MAX_FAM {
-        let fam = fam_of(f);
-        let net: packet::Nlri = if f == 1 {
-            "2001:db8:ffff::/48".parse().unwrap()
-        } else {
-            "10.255.0.0/16".parse().unwrap()
-        };
-        let mut set = 0;
-        let n = tables.shards.len();
-        for sh in &tables.shards {
-            let mut t = sh.lock().unwrap();
-            let r = t.rtable.insert(
-                probe.clone(),
-                fam,
-                net.clone(),
-                0,
-                None,
-                Arc::new(Vec::new()),
-                None,
-                false,
-                false,
-                None,
-                0,
-            );
-            if matches!(r, table::InsertResult::NoChange) {
-                set += 1;
-            }
-            let _ = t.rtable.remove(probe.clone(), fam, net.clone(), 0, None);
-        }
-        if set == n {
-            v.push(Term::nat(f));
-        } else if set != 0 {
-            v.push(Term::atom(format!("mixed{}", f)));
-        }
-    }
-    Term::tag("flags", v)
-}
-
-// ---- the transcribed glue -------------------------------------------------------------------
-
-struct World {
-    sd: Option<RestartingDeferral>, // Global.selection_deferral
-    tables: Arc<TableManager>,
-    rx: tokio::sync::mpsc::UnboundedReceiver<ToPeerEvent>,
-    sources: Vec<Arc<table::Source>>,
-    probe: Arc<table::Source>,
-}
-
-fn mk_source(addr: IpAddr) -> Arc<table::Source> {
-    Arc::new(table::Source::new(
-        addr,
-        IpAddr::V4(Ipv4Addr::new(127, 0, 0, 1)),
-        65002,
-        65001,
-        Ipv4Addr::new(10, 0, 0, 200),
-        table::PeerRole::Ebgp,
-    ))
-}
-
-/// event/mod.rs `process_restarting_outputs` (selection_deferral_timer handle omitted)
-fn apply_outs(w: &mut World, outputs: &[RestartingOutput]) {
-    let mut complete_families: Vec<Family> = vec![];
-    let mut end_remaining: Option<Vec<Family>> = None;
-    for output in outputs {
-        match output {
-            RestartingOutput::StartDeferralTimer(_) => {}
-            RestartingOutput::FamilyDeferralComplete(family) => complete_families.push(*family),
-            RestartingOutput::EndDeferral(remaining) => end_remaining = Some(remaining.clone()),
-            RestartingOutput::DeferFamilies(_) => {}
-        }
-    }
-    if !complete_families.is_empty() {
-        w.tables.end_deferral_families(&complete_families);
-    }
-    if let Some(remaining) = end_remaining {
-        if !remaining.is_empty() {
-            w.tables.end_deferral_families(&remaining);
-        }
-        w.sd = None;
-    }
-}
-
-fn obs(w: &mut World, outs: &[RestartingOutput], machine_after: (Term, Term)) -> Term {
-    let chg = drain_changes(&mut w.rx);
-    let flags = flags_t(&w.tables, &w.probe);
-    Term::list(vec![
-        outs_t(outs),
-        chg,
-        machine_after.0,
-        machine_after.1,
-        Term::boolean(w.sd.is_some()),
-        flags,
-    ])
-}
-
-fn run_case_c11(line: &str) -> String {
-    let Some(case) = Term::parse(line).as_ref().and_then(case_of) else {
-        return "(bad-case)".into();
-    };
-    let tables = Arc::new(TableManager::new(2));
-    let rx = tables.register_peer(
-        IpAddr::V4(Ipv4Addr::new(10, 0, 0, 250)),
-        FnvHashSet::default(),
-        |_| {},
-    );
-    let mut w = World {
-        sd: None,
-        tables,
-        rx,
-        sources: (0..MAX_PEER).map(|i| mk_source(peer_addr(i))).collect(),
-        probe: mk_source(IpAddr::V4(Ipv4Addr::new(10, 0, 0, 251))),
-    };
-    let mut steps = Vec::new();
-
-    // start-up block of event/mod.rs (is_restarting && bgp.is_some())
-    let mut gr_peers: FnvHashMap<IpAddr, Vec<Family>> = FnvHashMap::default();
-    for (p, fs) in &case.peers {
-        gr_peers.insert(peer_addr(*p), fs.iter().map(|f| fam_of(*f)).collect());
-    }
-    let (deferral, init_outputs) =
-        RestartingDeferral::new(gr_peers, case.dur.map(Duration::from_secs));
-    if !deferral.is_completed() {
-        for output in &init_outputs {
-            if let RestartingOutput::DeferFamilies(families) = output {
-                w.tables.start_deferral_families(families);
-            }
-        }
-        w.sd = Some(deferral);
-    }
-    let m = tag_and_pending(w.sd.as_ref());
-    steps.push(obs(&mut w, &init_outputs, m));
-
-    for ev in &case.evs {
-        let input = match ev {
-            Ev::Est(p, fs) => Some(RestartingInput::PeerEstablished(
-                peer_addr(*p),
-                fs.iter().map(|f| fam_of(*f)).collect(),
-            )),
-            Ev::Eor(p, f) => Some(RestartingInput::EorReceived(peer_addr(*p), fam_of(*f))),
-            Ev::Wd(p) => Some(RestartingInput::PeerWithdrawn(peer_addr(*p))),
-            Ev::Timer => Some(RestartingInput::TimerExpired),
-            _ => None,
-        };
-        if let Some(input) = input {
-            // `if let Some(rd) = &mut server.selection_deferral { rd.process(..) } else { vec![] }`
-            let (outputs, m) = if let Some(rd) = &mut w.sd {
-                let out = rd.process(input);
-                (out, tag_and_pending(w.sd.as_ref()))
-            } else {
-                (vec![], tag_and_pending(None))
-            };
-            apply_outs(&mut w, &outputs);
-            steps.push(obs(&mut w, &outputs, m));
-            continue;
-        }
-        match ev {
-            Ev::Ins(p, f, n) => {
-                let nh = packet::bgp::Nexthop::V4(Ipv4Addr::new(10, 0, 0, 1 + *p as u8));
-                w.tables.insert_route(
-                    w.sources[*p as usize].clone(),
-                    fam_of(*f),
-                    packet::PathNlri::new(net_of(*f, *n)),
-                    Some(nh),
-                    Arc::new(Vec::new()),
-                    None,
-                    0,
-                );
-            }
-            Ev::Rm(p, f, n) => {
-                w.tables.remove_route(
-                    w.sources[*p as usize].clone(),
-                    fam_of(*f),
-                    packet::PathNlri::new(net_of(*f, *n)),
-                    None,
-                    0,
-                );
-            }
-            Ev::Drop(p, f) => {
-                w.tables.drop_families(peer_addr(*p), &[fam_of(*f)]);
-            }
-            _ => {}
-        }
-        let m = tag_and_pending(w.sd.as_ref());
-        steps.push(obs(&mut w, &[], m));
-    }
-    Term::tag("trace", steps).to_string()
+    (tag, v)
 }
 
 #[test]
 fn verif_main() {
-    let (Ok(prop), Ok(inp), Ok(out)) = (
-        std::env::var("VERIF_PROP"),
-        std::env::var("VERIF_IN"),
-        std::env::var("VERIF_OUT"),
-    ) else {
-        return; // not invoked by /verif/check
-    };
-    // silence the default panic message of caught panics (one line per case otherwise)
-    std::panic::set_hook(Box::new(|_| {}));
-    match prop.as_str() {
-        "C11" => sexp::run_lines(&inp, &out, |l| {
-            let l = l.to_string();
-            std::panic::catch_unwind(move || run_case_c11(&l)).unwrap_or_else(|_| "(panic)".into())
-        }),
-        _ => {}
-    }
+    // C11 moved to event::verif_event::c11::verif_main
 }
